@@ -10,14 +10,17 @@ Record citer := CIter {
   ci_queue : list oq;
   ci_next : Z; ci_exc : bool; ci_limit : Z
 }.
-Record ccase := CCase { k_cfg : ccfg; k_outcomes : list hres; k_iters : list citer }.
+Record ccase := CCase { k_cfg : ccfg; k_outcomes : list hres; k_iters : list citer;
+                        k_qobs : list (list (N * Z * obj)) (* per handler invocation: the objects having queue entries *) }.
 
 (** the harness gives the bus once; every iteration sees the events up to its limit *)
 Definition mk_ccase (c : ccfg) (outs : list hres) (bus : list (Z * cev)) (its : list citer) : ccase :=
   CCase c outs
     (map (fun it => CIter (ci_now it) (ci_restart it)
                           (List.filter (fun p => (fst p <=? ci_limit it)%Z) bus)
-                          (ci_calls it) (ci_worlds it) (ci_queue it) (ci_next it) (ci_exc it) (ci_limit it)) its).
+                          (ci_calls it) (ci_worlds it) (ci_queue it) (ci_next it) (ci_exc it) (ci_limit it)) its) [].
+Definition with_qobs (x : ccase) (q : list (list (N * Z * obj))) : ccase :=
+  CCase (k_cfg x) (k_outcomes x) (k_iters x) q.
 
 Definition MIN_TS : Z := (-63902908800)%Z.   (* datetime(1,1,1) in seconds from the harness epoch *)
 
@@ -57,7 +60,7 @@ Definition restart_state (c : ccfg) (st : cstate) : cstate :=
   let q := map (fun e => QEntry (q_num e) (option_map strip (q_remote e)) (strip (q_local e)) (q_msg e)
                                  (entry_parents c (l_live st) (lc_live st) (q_local e))) (queue st) in
   CState (r_live st) (r_trash st) (rc_live st) (rc_trash st) (l_live st) (l_trash st) (lc_live st) (lc_trash st)
-         q (ncall st) [] 0 false false false false.
+         q (ncall st) [] 0 false false false false [].
 
 Definition worlds_of (st : cstate) : list world :=
   [r_live st; r_trash st; rc_live st; rc_trash st; l_live st; l_trash st; lc_live st; lc_trash st].
@@ -67,7 +70,7 @@ Definition run_iter (c : ccfg) (outs : list hres) (cl : client) (it : citer) : c
   let st0 := cl_st cl0 in
   let st0' := CState (r_live st0) (r_trash st0) (rc_live st0) (rc_trash st0) (l_live st0) (l_trash st0)
                      (lc_live st0) (lc_trash st0) (queue st0) (ncall st0) [] (curstep st0) (curpartial st0)
-                     false false (force_retry st0) in
+                     false false (force_retry st0) (poison st0) in
   let evs := List.filter (fun p => (cl_next cl0 <=? fst p)%Z) (ci_bus it) in
   client_iter c (outcome_of outs) (Client st0' (cl_next cl0)) (ci_now it) evs.
 
@@ -222,3 +225,194 @@ Definition check_mucases (f g : mucase -> bool) (l : list mucase) : list (Z * Z 
     | x :: r => (i, b2z (f x), b2z (g x)) :: go (i + 1)%Z r
     end in
   List.filter (fun t => negb (Z.eqb (snd (fst t)) 1%Z && Z.eqb (snd t) 1%Z)) (go 0%Z l).
+
+(** several oracles at once: bit j of the result is the verdict of the j-th oracle *)
+Definition check_bits (fs : list (ccase -> bool)) (l : list ccase) : list (Z * Z * Z) :=
+  let fix go (i : Z) (l : list ccase) :=
+    match l with
+    | [] => []
+    | x :: r => (i, fold_right (fun f acc => (2 * acc + b2z (f x))%Z) 0%Z fs, 0%Z) :: go (i + 1)%Z r
+    end in go 0%Z l.
+
+(** ** C09: no parent is touched ahead of its child's pending errors.
+    Observation-only oracles (handler log, queue content seen by each handler invocation,
+    bus): they do not use the client model. *)
+Definition tapply (w : world) (cl : call) : world :=
+  if negb (hres_eqb (cl_out cl) HOk) then w else
+  match cl_kind cl, cl_new cl with
+  | HAdded, Some o | HRecycled, Some o | HModified, Some o => <[(cl_t cl, cl_k cl) := o]> w
+  | HRemoved, _ | HTrashed, _ => delete (cl_t cl, cl_k cl) w
+  | _, _ => w
+  end.
+Definition children_of (c : ccfg) (w : world) (p : N * Z) : list (N * Z) :=
+  omap (fun io => match find_ctype c (fst (fst io)) with
+                  | Some ct => if existsb (fun ap => N.eqb (snd ap) (fst p) &&
+                                                     match fk_key (snd io) (fst ap) with Some k => Z.eqb k (snd p) | None => false end)
+                                          (ct_fks ct)
+                               then Some (fst io) else None
+                  | None => None end) (map_to_list w).
+(** objects removed and later added again on the bus (the scenario of finding F5) *)
+Fixpoint readded_go (bus : list (Z * cev)) (removed : list (N * Z)) : list (N * Z) :=
+  match bus with
+  | [] => []
+  | (_, e) :: r =>
+      match ce_kind e with
+      | KRemoved => readded_go r (ce_id e :: removed)
+      | KAdded _ => (if existsb (fun i => N.eqb (fst i) (ce_t e) && Z.eqb (snd i) (ce_k e)) removed then [ce_id e] else [])
+                    ++ readded_go r removed
+      | _ => readded_go r removed
+      end
+  end.
+Definition readded (x : ccase) : list (N * Z) :=
+  match List.last (map Some (k_iters x)) None with Some it => readded_go (ci_bus it) [] | None => [] end.
+Definition id_in (i : N * Z) (l : list (N * Z)) : bool :=
+  existsb (fun j => N.eqb (fst i) (fst j) && Z.eqb (snd i) (snd j)) l.
+
+(** (a) target consequence: a successful removed/trashed call never hits a parent that
+    still has a child on the target replica (rebuilt from the successful calls) *)
+Fixpoint c09_calls (c : ccfg) (skip : list (N * Z)) (w : world) (cls : list call) : bool :=
+  match cls with
+  | [] => true
+  | cl :: r =>
+      let ok := hres_eqb (cl_out cl) HOk in
+      (match cl_kind cl with
+       | HRemoved | HTrashed => negb ok || id_in (cl_t cl, cl_k cl) skip
+                                || match children_of c w (cl_t cl, cl_k cl) with [] => true | _ => false end
+       | _ => true end)
+      && c09_calls c skip (tapply w cl) r
+  end.
+(** (b) the policy itself: when a handler is invoked for an event kind covered by the
+    policy on an object present on the target, no other object with queue entries has it
+    among its (transitive) parents - parents follow from the key components alone *)
+Definition pk_obj (c : ccfg) (t : N) (k : Z) : obj :=
+  match find_ctype c t with
+  | Some ct => mk_obj (map (fun ap => (fst ap, VInt k)) (ct_fks ct))
+  | None => mk_obj [] end.
+Fixpoint ancestors (c : ccfg) (fuel : nat) (t : N) (o : obj) : list (N * Z) :=
+  match fuel with
+  | O => []
+  | S f => match find_ctype c t with
+           | None => []
+           | Some ct => flat_map (fun ap => match fk_key o (fst ap) with
+                                            | Some pk => (snd ap, pk) :: ancestors c f (snd ap) (pk_obj c (snd ap) pk)
+                                            | None => [] end) (ct_fks ct)
+           end
+  end.
+Definition covered (p : fkpolicy) (k : hkind) : bool :=
+  match p, k with
+  | FKDisabled, _ => false
+  | FKOnRemove, (HRemoved | HTrashed) => true
+  | FKOnRemove, _ => false
+  | FKOnEvery, _ => true
+  end.
+Definition pending_child (c : ccfg) (p : N * Z) (q : list (N * Z * obj)) : bool :=
+  existsb (fun e => negb (id_in (fst e) [p])
+                    && id_in p (ancestors c (S (length (cc_types c))) (fst (fst e)) (snd e))) q.
+Fixpoint c09_direct (c : ccfg) (pol : fkpolicy) (skip : list (N * Z)) (w : world) (cls : list call)
+         (qs : list (list (N * Z * obj))) : bool :=
+  match cls, qs with
+  | cl :: r, q :: qr =>
+      let p := (cl_t cl, cl_k cl) in
+      (negb (covered pol (cl_kind cl)) || id_in p skip
+       || match w !! p with None => true
+          | Some _ => negb (pending_child c p (List.filter (fun e => negb (id_in (fst e) skip)) q)) end)
+      && c09_direct c pol skip (tapply w cl) r qr
+  | [], [] => true
+  | _, _ => false      (* every call must come with its queue observation *)
+  end.
+(** policy [disabled] is the control: [c09_target] is evaluated as if a policy were set *)
+Definition c09_target (x : ccase) : bool := c09_calls (k_cfg x) [] ∅ (all_calls (k_iters x)).
+Definition c09_policy (x : ccase) : bool :=
+  c09_direct (k_cfg x) (cc_fkpolicy (k_cfg x)) [] ∅ (all_calls (k_iters x)) (k_qobs x).
+Definition c09_case (x : ccase) : bool := c09_target x && c09_policy x.
+(** the same, excusing the parents (and pending children) that are removed and re-added on
+    the bus (finding F5: their queued events are purged or stuck) *)
+Definition c09_case_noreadd (x : ccase) : bool :=
+  c09_calls (k_cfg x) (readded x) ∅ (all_calls (k_iters x))
+  && c09_direct (k_cfg x) (cc_fkpolicy (k_cfg x)) (readded x) ∅ (all_calls (k_iters x)) (k_qobs x).
+(** finding F21: the parent index of a queue entry is computed when the entry is appended,
+    from the parents present in the local cache at that moment.  [stale] collects the pairs
+    (child, parent) such that a handler failed on the child while the parent or the child
+    itself was absent from the target (a 'removed' appended behind a pending 'added' finds
+    the child in no cache and registers no parent either); the [_nostale] variants excuse
+    exactly those pairs. *)
+Definition pair_in (cp : (N * Z) * (N * Z)) (l : list ((N * Z) * (N * Z))) : bool :=
+  existsb (fun x => id_in (fst cp) [fst x] && id_in (snd cp) [snd x]) l.
+Definition stale_step (c : ccfg) (w : world) (cl : call) (st : list ((N * Z) * (N * Z))) :=
+  if hres_eqb (cl_out cl) HOk then st else
+  let ch := (cl_t cl, cl_k cl) in
+  let o := match cl_new cl, cl_old cl with Some o, _ => o | None, Some o => o | None, None => mk_obj [] end in
+  map (fun p => (ch, p))
+      (List.filter (fun p => match w !! ch, w !! p with Some _, Some _ => false | _, _ => true end)
+                   (ancestors c (S (length (cc_types c))) (cl_t cl) o)) ++ st.
+Fixpoint c09_direct_ns (c : ccfg) (pol : fkpolicy) (skip : list (N * Z)) (st : list ((N * Z) * (N * Z)))
+         (w : world) (cls : list call) (qs : list (list (N * Z * obj))) : bool :=
+  match cls, qs with
+  | cl :: r, q :: qr =>
+      let p := (cl_t cl, cl_k cl) in
+      (negb (covered pol (cl_kind cl)) || id_in p skip
+       || match w !! p with None => true
+          | Some _ => negb (pending_child c p (List.filter (fun e => negb (pair_in (fst e, p) st) && negb (id_in (fst e) skip)) q)) end)
+      && c09_direct_ns c pol skip (stale_step c w cl st) (tapply w cl) r qr
+  | [], [] => true
+  | _, _ => false
+  end.
+Fixpoint c09_calls_ns (c : ccfg) (skip : list (N * Z)) (st : list ((N * Z) * (N * Z))) (w : world) (cls : list call) : bool :=
+  match cls with
+  | [] => true
+  | cl :: r =>
+      let ok := hres_eqb (cl_out cl) HOk in
+      let p := (cl_t cl, cl_k cl) in
+      (match cl_kind cl with
+       | HRemoved | HTrashed => negb ok || id_in p skip
+                                || match List.filter (fun ch => negb (pair_in (ch, p) st)) (children_of c w p) with [] => true | _ => false end
+       | _ => true end)
+      && c09_calls_ns c skip (stale_step c w cl st) (tapply w cl) r
+  end.
+Definition c09_case_nostale (x : ccase) : bool :=
+  c09_calls_ns (k_cfg x) [] [] ∅ (all_calls (k_iters x))
+  && c09_direct_ns (k_cfg x) (cc_fkpolicy (k_cfg x)) [] [] ∅ (all_calls (k_iters x)) (k_qobs x).
+Definition c09_case_excused (x : ccase) : bool :=
+  c09_calls_ns (k_cfg x) (readded x) [] ∅ (all_calls (k_iters x))
+  && c09_direct_ns (k_cfg x) (cc_fkpolicy (k_cfg x)) (readded x) [] ∅ (all_calls (k_iters x)) (k_qobs x).
+
+(* debugging aids *)
+Fixpoint c09_first (c : ccfg) (w : world) (cls : list call) (i : Z) : option (Z * list (N * Z)) :=
+  match cls with
+  | [] => None
+  | cl :: r =>
+      let ok := hres_eqb (cl_out cl) HOk in
+      match cl_kind cl with
+      | HRemoved | HTrashed =>
+          if ok then match children_of c w (cl_t cl, cl_k cl) with [] => c09_first c (tapply w cl) r (i + 1) | l => Some (i, l) end
+          else c09_first c (tapply w cl) r (i + 1)
+      | _ => c09_first c (tapply w cl) r (i + 1) end
+  end.
+Definition c09_where (x : ccase) := c09_first (k_cfg x) ∅ (all_calls (k_iters x)) 0.
+Fixpoint c09_dfirst (c : ccfg) (pol : fkpolicy) (w : world) (cls : list call) (qs : list (list (N * Z * obj))) (i : Z)
+  : list (Z * list (N * Z)) :=
+  match cls, qs with
+  | cl :: r, q :: qr =>
+      let p := (cl_t cl, cl_k cl) in
+      (if (negb (covered pol (cl_kind cl)) || match w !! p with None => true | Some _ => negb (pending_child c p q) end)
+       then [] else [(i, map fst q)]) ++ c09_dfirst c pol (tapply w cl) r qr (i + 1)
+  | _, _ => []
+  end.
+Definition c09_dwhere (x : ccase) := c09_dfirst (k_cfg x) (cc_fkpolicy (k_cfg x)) ∅ (all_calls (k_iters x)) (k_qobs x) 0.
+Definition c09_stale (x : ccase) :=
+  (fix go w st cls := match cls with [] => st | cl :: r => go (tapply w cl) (stale_step (k_cfg x) w cl st) r end)
+    (∅ : world) [] (all_calls (k_iters x)).
+Definition wdiff (a b : world) : list (N * Z * option (list (N * value)) * option (list (N * value))) :=
+  omap (fun k => let x := a !! k in let y := b !! k in
+                 if oobj_eqb x y then None else Some (k, option_map map_to_list x, option_map map_to_list y))
+       (remove_dups (map fst (map_to_list a) ++ map fst (map_to_list b))).
+Fixpoint corr_wdiff_go (c : ccfg) (outs : list hres) (cl : client) (its : list citer) (n : nat) :=
+  match its with
+  | [] => []
+  | it :: r => let cl' := run_iter c outs cl it in
+               match n with
+               | O => imap (fun i ab => (i, wdiff (fst ab) (snd ab))) (zip (worlds_of (cl_st cl')) (ci_worlds it))
+               | S m => corr_wdiff_go c outs cl' r m end
+  end.
+Definition corr_wdiff (x : ccase) (n : nat) :=
+  List.filter (fun p => match snd p with [] => false | _ => true end) (corr_wdiff_go (k_cfg x) (k_outcomes x) client0 (k_iters x) n).
